@@ -91,7 +91,7 @@ const LD AXI_VALS[4][3] = {{dy(384), dy(1152), dy(2400)}, {dy(288), dy(1248), dy
 struct Reg {
   Reg() {
     for (const Cfg& c : CFG) {
-      System s; s.name = c.name; s.prop = c.prop; s.dim = 2;
+      System s; s.name = c.name; s.prop = c.prop; s.dim = 2; s.singular_axis = 0;
       s.points = [c](int tier) {
         std::vector<int> vars = {0, 1}; if (c.tr) vars.push_back(3);
         std::vector<Pt> pts = grid(vars, tier ? 3 : 2, AXI_VALS);
